@@ -899,6 +899,446 @@ Section Zipper.
     apply bind_ok_inv in H. destruct H as (l1 & H1 & H2).
     eapply run_pass_inv; [exact Hc| |exact H2]. eapply run_pass_inv; eassumption.
   Qed.
+  (* ------------------------------------------------------------------ *)
+  (* the tag of [this] never changes                                      *)
+  (* ------------------------------------------------------------------ *)
+  Definition is_di (x : op) : Prop :=
+    match x with Delete _ _ _ | Insert _ _ _ => True | _ => False end.
+
+  Lemma swap_pair_tags a c : op_tag (fst (swap_pair a c)) = op_tag a /\ op_tag (snd (swap_pair a c)) = op_tag c.
+  Proof.
+    unfold swap_pair. destruct repair; [|split; reflexivity].
+    destruct a, c; cbn [repair_pair fst snd op_tag]; split; reflexivity.
+  Qed.
+
+  Lemma up_step_tag z r : up_step cmp repair z = Ok r -> op_tag (zthis (zof r)) = op_tag (zthis z).
+  Proof.
+    intros Hstep. destruct z as [[bef this] aft].
+    destruct bef as [|prev bef']; [cbn [up_step] in Hstep; injection Hstep as <-; reflexivity|].
+    destruct this as [to tn tl|to tl tn|to tn tl|to tol tn tnl];
+      try (cbn [up_step op_tag] in Hstep; discriminate);
+      (destruct prev as [po pn pl|po pl pn|po pn pl|po pol pn pnl];
+       try (cbn [up_step op_tag] in Hstep; discriminate)).
+    - rewrite up_step_del_eq in Hstep. destruct (op_is_empty (Equal po pn pl)); injection Hstep as <-; reflexivity.
+    - cbn [up_step op_tag grow_right] in Hstep. injection Hstep as <-. reflexivity.
+    - cbn [up_step op_tag] in Hstep. fold (swap_pair (Delete to tl tn) (Insert po pn pl)) in Hstep.
+      destruct (swap_pair_tags (Delete to tl tn) (Insert po pn pl)) as [T1 _].
+      destruct (swap_pair (Delete to tl tn) (Insert po pn pl)) as [this1 prev1].
+      injection Hstep as <-. exact T1.
+    - rewrite up_step_ins_eq in Hstep.
+      apply bind_ok_inv in Hstep. destruct Hstep as (s & _ & Hstep).
+      destruct (0 <? s).
+      + apply bind_ok_inv in Hstep. destruct Hstep as (aft1 & _ & Hstep).
+        apply bind_ok_inv in Hstep. destruct Hstep as (io' & _ & Hstep).
+        apply bind_ok_inv in Hstep. destruct Hstep as (inn' & _ & Hstep).
+        apply bind_ok_inv in Hstep. destruct Hstep as (l' & _ & Hstep).
+        injection Hstep as <-. reflexivity.
+      + destruct (op_is_empty (Equal po pn pl)); injection Hstep as <-; reflexivity.
+    - cbn [up_step op_tag] in Hstep. fold (swap_pair (Insert to tn tl) (Delete po pl pn)) in Hstep.
+      destruct (swap_pair_tags (Insert to tn tl) (Delete po pl pn)) as [T1 _].
+      destruct (swap_pair (Insert to tn tl) (Delete po pl pn)) as [this1 prev1].
+      injection Hstep as <-. exact T1.
+    - cbn [up_step op_tag grow_right] in Hstep. injection Hstep as <-. reflexivity.
+  Qed.
+
+  Lemma down_step_tag z r : down_step cmp repair z = Ok r -> op_tag (zthis (zof r)) = op_tag (zthis z).
+  Proof.
+    intros Hstep. destruct z as [[bef this] aft].
+    destruct aft as [|next aft']; [cbn [down_step] in Hstep; injection Hstep as <-; reflexivity|].
+    destruct this as [to tn tl|to tl tn|to tn tl|to tol tn tnl];
+      try (cbn [down_step op_tag] in Hstep; discriminate);
+      (destruct next as [xo xn xl|xo xl xn|xo xn xl|xo xol xn xnl];
+       try (cbn [down_step op_tag] in Hstep; discriminate)).
+    - rewrite down_step_del_eq in Hstep. destruct (op_is_empty (Equal xo xn xl)); injection Hstep as <-; reflexivity.
+    - cbn [down_step op_tag grow_right] in Hstep. injection Hstep as <-. reflexivity.
+    - cbn [down_step op_tag] in Hstep. fold (swap_pair (Insert xo xn xl) (Delete to tl tn)) in Hstep.
+      destruct (swap_pair_tags (Insert xo xn xl) (Delete to tl tn)) as [_ T2].
+      destruct (swap_pair (Insert xo xn xl) (Delete to tl tn)) as [next1 this1].
+      injection Hstep as <-. exact T2.
+    - rewrite down_step_ins_eq in Hstep.
+      apply bind_ok_inv in Hstep. destruct Hstep as (p & _ & Hstep).
+      destruct (0 <? p).
+      + apply bind_ok_inv in Hstep. destruct Hstep as (l' & _ & Hstep).
+        injection Hstep as <-. reflexivity.
+      + destruct (op_is_empty (Equal xo xn xl)); injection Hstep as <-; reflexivity.
+    - cbn [down_step op_tag] in Hstep. fold (swap_pair (Delete xo xl xn) (Insert to tn tl)) in Hstep.
+      destruct (swap_pair_tags (Delete xo xl xn) (Insert to tn tl)) as [_ T2].
+      destruct (swap_pair (Delete xo xl xn) (Insert to tn tl)) as [next1 this1].
+      injection Hstep as <-. exact T2.
+    - cbn [down_step op_tag grow_right] in Hstep. injection Hstep as <-. reflexivity.
+  Qed.
+
+  Lemma is_di_tag x y : op_tag x = op_tag y -> is_di y -> is_di x.
+  Proof. destruct x, y; cbn [op_tag is_di]; intros H; try discriminate; auto. Qed.
+  (* ------------------------------------------------------------------ *)
+  (* P4: progress (no Panic)                                              *)
+  (* ------------------------------------------------------------------ *)
+  Definition cmp_total : Prop :=
+    forall i j, os <= i < oe -> ns <= j < ne -> exists bb, cmp i j = Ok bb.
+
+  Lemma up_aft1_ok X Y s aft :
+    s <= X -> s <= Y ->
+    (forall xo xn xl aft', aft = Equal xo xn xl :: aft' -> s <= xo /\ s <= xn) ->
+    exists aft1, up_aft1 X Y s aft = Ok aft1.
+  Proof.
+    intros HX HY Hnx. unfold up_aft1.
+    destruct aft as [|nx aft'].
+    - rewrite (sub_chk_le _ _ HX), (sub_chk_le _ _ HY). cbn [bind]. eexists; reflexivity.
+    - destruct nx as [xo xn xl| | |]; cbn [is_equal_op];
+        try (rewrite (sub_chk_le _ _ HX), (sub_chk_le _ _ HY); cbn [bind]; eexists; reflexivity).
+      destruct (Hnx _ _ _ _ eq_refl) as [H1 H2]. cbn [grow_left].
+      rewrite (sub_chk_le _ _ H1), (sub_chk_le _ _ H2). cbn [bind]. eexists; reflexivity.
+  Qed.
+
+  Lemma up_step_progress m D I z :
+    cmp_total -> m <> Loose -> ZInv m D I z -> is_di (zthis z) ->
+    exists r, up_step cmp repair z = Ok r.
+  Proof.
+    intros Htot Hm Hz Hdi. destruct z as [[bef this] aft]. cbn [zthis] in Hdi.
+    destruct bef as [|prev bef']; [cbn [up_step]; eexists; reflexivity|].
+    destruct this as [to tn tl|to tl tn|to tn tl|to tol tn tnl]; try contradiction;
+      (destruct prev as [po pn pl|po pl pn|po pn pl|po pol pn pnl];
+       [| | |exfalso; eapply ZInv_Replace_prev; exact Hz]).
+    - rewrite up_step_del_eq. destruct (op_is_empty (Equal po pn pl)); eexists; reflexivity.
+    - cbn [up_step op_tag]. eexists; reflexivity.
+    - cbn [up_step op_tag]. destruct repair; cbn [repair_pair]; eexists; reflexivity.
+    - rewrite up_step_ins_eq.
+      apply ZInv_iff in Hz. destruct Hz as (Hb & Ht & Ha & Eo & En & _).
+      apply RSeg_cons in Hb. destruct Hb as (_ & -> & -> & _).
+      cbn [OpOk otot ntot etot op_old_len op_new_len elen] in Ht, Ha, Eo, En.
+      destruct Ht as (-> & Hio).
+      destruct (common_suffix_len_total cmp (os + otot bef') (os + otot bef' + pl)
+                  (ns + (pl + ntot bef')) (ns + (pl + ntot bef') + tl)) as [s Hs].
+      { intros i j Hi Hj. apply Htot; lia. }
+      rewrite Hs. cbn [bind].
+      apply common_suffix_len_spec in Hs. destruct Hs as (Hs1 & Hs2 & _).
+      destruct (0 <? s); [|destruct (op_is_empty (Equal _ _ pl)); eexists; reflexivity].
+      destruct (up_aft1_ok (os + otot bef' + pl) (ns + (pl + ntot bef') + tl) s aft) as [aft1 Haft1]; try lia.
+      { intros xo xn xl aft' ->. cbn [Seg OpOk] in Ha. destruct Ha as ((-> & -> & _) & _). lia. }
+      rewrite Haft1. cbn [bind].
+      assert (Hto : s <= to) by (destruct m; cbn [ins_ok] in Hio; [contradiction|lia|lia]).
+      rewrite (sub_chk_le to s Hto). cbn [bind].
+      rewrite (sub_chk_le (ns + (pl + ntot bef')) s) by lia. cbn [bind].
+      rewrite (sub_chk_le pl s) by lia. cbn [bind].
+      eexists; reflexivity.
+    - cbn [up_step op_tag]. destruct repair; cbn [repair_pair]; eexists; reflexivity.
+    - cbn [up_step op_tag]. eexists; reflexivity.
+  Qed.
+
+  Lemma down_step_progress m D I z :
+    cmp_total -> ZInv m D I z -> is_di (zthis z) ->
+    exists r, down_step cmp repair z = Ok r.
+  Proof.
+    intros Htot Hz Hdi. destruct z as [[bef this] aft]. cbn [zthis] in Hdi.
+    destruct aft as [|next aft']; [cbn [down_step]; eexists; reflexivity|].
+    destruct this as [to tn tl|to tl tn|to tn tl|to tol tn tnl]; try contradiction;
+      (destruct next as [xo xn xl|xo xl xn|xo xn xl|xo xol xn xnl];
+       [| | |exfalso; eapply ZInv_Replace_next; exact Hz]).
+    - rewrite down_step_del_eq. destruct (op_is_empty (Equal xo xn xl)); eexists; reflexivity.
+    - cbn [down_step op_tag]. eexists; reflexivity.
+    - cbn [down_step op_tag]. destruct repair; cbn [repair_pair]; eexists; reflexivity.
+    - rewrite down_step_ins_eq.
+      apply ZInv_iff in Hz. destruct Hz as (_ & Ht & Ha & Eo & En & _).
+      cbn [Seg OpOk otot ntot etot op_old_len op_new_len elen] in Ht, Ha, Eo, En.
+      destruct Ht as (-> & _). destruct Ha as ((-> & -> & _) & _).
+      destruct (common_prefix_len_total cmp (os + otot bef + 0) (os + otot bef + 0 + xl)
+                  (ns + ntot bef) (ns + ntot bef + tl)) as [p Hp].
+      { intros i j Hi Hj. apply Htot; lia. }
+      rewrite Hp. cbn [bind].
+      apply common_prefix_len_spec in Hp. destruct Hp as (Hp1 & Hp2 & _).
+      destruct (0 <? p); [|destruct (op_is_empty (Equal _ _ xl)); eexists; reflexivity].
+      rewrite (sub_chk_le xl p) by lia. cbn [bind]. eexists; reflexivity.
+    - cbn [down_step op_tag]. destruct repair; cbn [repair_pair]; eexists; reflexivity.
+    - cbn [down_step op_tag]. eexists; reflexivity.
+  Qed.
+  (* ------------------------------------------------------------------ *)
+  (* P6 (inner loops): measures                                           *)
+  (* ------------------------------------------------------------------ *)
+  Lemma ops_weight_cons x l : ops_weight (x :: l) = S (op_old_len x + op_new_len x) + ops_weight l.
+  Proof. reflexivity. Qed.
+
+  Lemma ops_weight_push_ne x l : ops_weight (push_ne x l) <= ops_weight (x :: l).
+  Proof. unfold push_ne. destruct (op_is_empty x); rewrite ?ops_weight_cons; lia. Qed.
+
+  Lemma up_step_decr z z' :
+    up_step cmp repair z = Ok (Continue z') -> ops_weight (zbef z') < ops_weight (zbef z).
+  Proof.
+    intros Hstep. destruct z as [[bef this] aft]. cbn [zbef].
+    destruct bef as [|prev bef']; [cbn [up_step] in Hstep; discriminate|].
+    rewrite ops_weight_cons.
+    destruct this as [to tn tl|to tl tn|to tn tl|to tol tn tnl];
+      try (cbn [up_step op_tag] in Hstep; discriminate);
+      (destruct prev as [po pn pl|po pl pn|po pn pl|po pol pn pnl];
+       try (cbn [up_step op_tag] in Hstep; discriminate)).
+    - rewrite up_step_del_eq in Hstep.
+      destruct (op_is_empty (Equal po pn pl)); [|discriminate]. injection Hstep as <-. cbn [zbef]. lia.
+    - cbn [up_step op_tag] in Hstep. injection Hstep as <-. cbn [zbef]. lia.
+    - cbn [up_step op_tag] in Hstep. fold (swap_pair (Delete to tl tn) (Insert po pn pl)) in Hstep.
+      destruct (swap_pair (Delete to tl tn) (Insert po pn pl)) as [this1 prev1].
+      injection Hstep as <-. cbn [zbef]. lia.
+    - rewrite up_step_ins_eq in Hstep.
+      apply bind_ok_inv in Hstep. destruct Hstep as (s & _ & Hstep).
+      destruct (0 <? s) eqn:E0.
+      + apply Nat.ltb_lt in E0.
+        apply bind_ok_inv in Hstep. destruct Hstep as (aft1 & _ & Hstep).
+        apply bind_ok_inv in Hstep. destruct Hstep as (io' & _ & Hstep).
+        apply bind_ok_inv in Hstep. destruct Hstep as (inn' & _ & Hstep).
+        apply bind_ok_inv in Hstep. destruct Hstep as (l' & Hl & Hstep).
+        apply sub_chk_inv in Hl. destruct Hl as [Hle ->].
+        injection Hstep as <-. cbn [zbef].
+        eapply Nat.le_lt_trans; [apply ops_weight_push_ne|].
+        rewrite ops_weight_cons. cbn [op_old_len op_new_len]. lia.
+      + destruct (op_is_empty (Equal po pn pl)); [|discriminate]. injection Hstep as <-. cbn [zbef]. lia.
+    - cbn [up_step op_tag] in Hstep. fold (swap_pair (Insert to tn tl) (Delete po pl pn)) in Hstep.
+      destruct (swap_pair (Insert to tn tl) (Delete po pl pn)) as [this1 prev1].
+      injection Hstep as <-. cbn [zbef]. lia.
+    - cbn [up_step op_tag] in Hstep. injection Hstep as <-. cbn [zbef]. lia.
+  Qed.
+
+  Lemma down_step_decr z z' :
+    down_step cmp repair z = Ok (Continue z') -> ops_weight (zaft z') < ops_weight (zaft z).
+  Proof.
+    intros Hstep. destruct z as [[bef this] aft]. cbn [zaft].
+    destruct aft as [|next aft']; [cbn [down_step] in Hstep; discriminate|].
+    rewrite ops_weight_cons.
+    destruct this as [to tn tl|to tl tn|to tn tl|to tol tn tnl];
+      try (cbn [down_step op_tag] in Hstep; discriminate);
+      (destruct next as [xo xn xl|xo xl xn|xo xn xl|xo xol xn xnl];
+       try (cbn [down_step op_tag] in Hstep; discriminate)).
+    - rewrite down_step_del_eq in Hstep.
+      destruct (op_is_empty (Equal xo xn xl)); [|discriminate]. injection Hstep as <-. cbn [zaft]. lia.
+    - cbn [down_step op_tag] in Hstep. injection Hstep as <-. cbn [zaft]. lia.
+    - cbn [down_step op_tag] in Hstep. fold (swap_pair (Insert xo xn xl) (Delete to tl tn)) in Hstep.
+      destruct (swap_pair (Insert xo xn xl) (Delete to tl tn)) as [next1 this1].
+      injection Hstep as <-. cbn [zaft]. lia.
+    - rewrite down_step_ins_eq in Hstep.
+      apply bind_ok_inv in Hstep. destruct Hstep as (p & _ & Hstep).
+      destruct (0 <? p) eqn:E0.
+      + apply Nat.ltb_lt in E0.
+        apply bind_ok_inv in Hstep. destruct Hstep as (l' & Hl & Hstep).
+        apply sub_chk_inv in Hl. destruct Hl as [Hle ->].
+        injection Hstep as <-. cbn [zaft].
+        eapply Nat.le_lt_trans; [apply ops_weight_push_ne|].
+        rewrite ops_weight_cons. cbn [op_old_len op_new_len]. lia.
+      + destruct (op_is_empty (Equal xo xn xl)); [|discriminate]. injection Hstep as <-. cbn [zaft]. lia.
+    - cbn [down_step op_tag] in Hstep. fold (swap_pair (Delete xo xl xn) (Insert to tn tl)) in Hstep.
+      destruct (swap_pair (Delete xo xl xn) (Insert to tn tl)) as [next1 this1].
+      injection Hstep as <-. cbn [zaft]. lia.
+    - cbn [down_step op_tag] in Hstep. injection Hstep as <-. cbn [zaft]. lia.
+  Qed.
+
+  Lemma run_steps_ok (P : zipper -> Prop) step (mu : zipper -> nat) :
+    (forall z r, P z -> step z = Ok r -> P (zof r)) ->
+    (forall z, P z -> exists r, step z = Ok r) ->
+    (forall z z', step z = Ok (Continue z') -> mu z' < mu z) ->
+    forall fuel z, P z -> mu z < fuel -> exists z', run_steps step fuel z = Ok z'.
+  Proof.
+    intros Hpres Hprog Hdecr. induction fuel as [|fuel IH]; intros z Hz Hmu; [lia|].
+    cbn [run_steps]. destruct (Hprog z Hz) as [r Hr]. rewrite Hr. cbn [bind].
+    assert (Hz1 := Hpres _ _ Hz Hr).
+    destruct r as [z1|z1]; cbn [zof] in Hz1.
+    - apply IH; [exact Hz1|]. specialize (Hdecr _ _ Hr). lia.
+    - eexists; reflexivity.
+  Qed.
+
+  Lemma up_weight_lt_fuel z : ops_weight (zbef z) < inner_fuel z.
+  Proof. destruct z as [[bef this] aft]. unfold inner_fuel, zipper_weight. cbn [zbef]. lia. Qed.
+  Lemma down_weight_lt_fuel z : ops_weight (zaft z) < inner_fuel z.
+  Proof. destruct z as [[bef this] aft]. unfold inner_fuel, zipper_weight. cbn [zaft]. lia. Qed.
+
+  (* on valid zippers pointing at a Delete/Insert the inner loops return Ok:
+     no Panic and no OutOfFuel *)
+  Definition ZGood (m : mode) (D I : nat) (z : zipper) : Prop := ZInv m D I z /\ is_di (zthis z).
+
+  Lemma shift_up_ok m D I z :
+    cmp_total -> m <> Loose -> compat m -> ZGood m D I z ->
+    exists z', shift_up cmp repair z = Ok z' /\ ZGood m D I z'.
+  Proof.
+    intros Htot Hm Hc Hz.
+    assert (Hpres : forall z r, ZGood m D I z -> up_step cmp repair z = Ok r -> ZGood m D I (zof r)).
+    { intros z0 r [Hz0 Hdi] Hr. split; [eapply up_step_inv; eassumption|].
+      eapply is_di_tag; [apply up_step_tag; exact Hr|exact Hdi]. }
+    destruct (run_steps_ok (ZGood m D I) (up_step cmp repair) (fun z => ops_weight (zbef z)) Hpres)
+      with (fuel := inner_fuel z) (z := z) as [z' Hz'].
+    - intros z0 [Hz0 Hdi]. eapply up_step_progress; eassumption.
+    - intros z0 z1. apply up_step_decr.
+    - exact Hz.
+    - apply up_weight_lt_fuel.
+    - exists z'. split; [exact Hz'|].
+      eapply (run_steps_inv (ZGood m D I)); [exact Hpres|exact Hz|exact Hz'].
+  Qed.
+
+  Lemma shift_down_ok m D I z :
+    cmp_total -> compat m -> ZGood m D I z ->
+    exists z', shift_down cmp repair z = Ok z' /\ ZGood m D I z'.
+  Proof.
+    intros Htot Hc Hz.
+    assert (Hpres : forall z r, ZGood m D I z -> down_step cmp repair z = Ok r -> ZGood m D I (zof r)).
+    { intros z0 r [Hz0 Hdi] Hr. split; [eapply down_step_inv; eassumption|].
+      eapply is_di_tag; [apply down_step_tag; exact Hr|exact Hdi]. }
+    destruct (run_steps_ok (ZGood m D I) (down_step cmp repair) (fun z => ops_weight (zaft z)) Hpres)
+      with (fuel := inner_fuel z) (z := z) as [z' Hz'].
+    - intros z0 [Hz0 Hdi]. eapply down_step_progress; eassumption.
+    - intros z0 z1. apply down_step_decr.
+    - exact Hz.
+    - apply down_weight_lt_fuel.
+    - exists z'. split; [exact Hz'|].
+      eapply (run_steps_inv (ZGood m D I)); [exact Hpres|exact Hz|exact Hz'].
+  Qed.
+
+  Lemma tag_match_di t x : tag_match t x = true -> is_di x.
+  Proof. unfold tag_match. destruct t, x; cbn [op_tag is_di]; intros H; try discriminate; exact I. Qed.
+
+  Lemma pass_no_panic m D I t :
+    cmp_total -> m <> Loose -> compat m ->
+    forall fuel z, ZInv m D I z -> pass cmp repair t fuel z <> Panic.
+  Proof.
+    intros Htot Hm Hc. induction fuel as [|fuel IH]; intros z Hz; [discriminate|].
+    destruct z as [[bef this] aft]. rewrite pass_unfold.
+    assert (Hz1 : exists z1, (if tag_match t this
+              then (do zu <- shift_up cmp repair (bef, this, aft); shift_down cmp repair zu)
+              else Ok (bef, this, aft)) = Ok z1 /\ ZInv m D I z1).
+    { destruct (tag_match t this) eqn:Et.
+      - destruct (shift_up_ok m D I (bef, this, aft) Htot Hm Hc) as (zu & Hu & Hgu).
+        { split; [exact Hz|]. eapply tag_match_di; exact Et. }
+        destruct (shift_down_ok m D I zu Htot Hc Hgu) as (zd & Hd & Hgd).
+        exists zd. rewrite Hu. cbn [bind]. split; [exact Hd|apply Hgd].
+      - exists (bef, this, aft). split; [reflexivity|exact Hz]. }
+    destruct Hz1 as (z1 & -> & Hinv1). cbn [bind].
+    destruct z1 as [[b1 t1] a1]. cbn [zaft zthis zbef].
+    destruct a1 as [|nx a1']; [discriminate|].
+    apply IH. unfold ZInv. rewrite zlist_advance. exact Hinv1.
+  Qed.
+
+  Lemma run_pass_no_panic m D I t l :
+    cmp_total -> m <> Loose -> compat m -> LInv m D I l -> run_pass cmp repair t l <> Panic.
+  Proof.
+    intros Htot Hm Hc Hl. destruct l as [|x r]; cbn [run_pass]; [discriminate|].
+    eapply pass_no_panic; try eassumption.
+  Qed.
+
+  Lemma cleanup_no_panic m D I l :
+    cmp_total -> m <> Loose -> compat m -> LInv m D I l -> cleanup_diff_ops cmp repair l <> Panic.
+  Proof.
+    intros Htot Hm Hc Hl. unfold cleanup_diff_ops.
+    destruct (run_pass cmp repair TDelete l) as [l1| |] eqn:E1; cbn [bind].
+    - eapply run_pass_no_panic; try eassumption. eapply run_pass_inv; eassumption.
+    - exfalso. eapply run_pass_no_panic; eassumption.
+    - discriminate.
+  Qed.
+  (* ---- P6, unconditional form: the inner loops never run out of fuel, on
+     any zipper whatsoever, provided the comparison itself does not ---- *)
+  Definition cmp_no_oof : Prop := forall i j, cmp i j <> OutOfFuel.
+
+  Lemma bind_not_oof {A B} (mm : res A) (f : A -> res B) :
+    mm <> OutOfFuel -> (forall a, f a <> OutOfFuel) -> bind mm f <> OutOfFuel.
+  Proof. intros Hm Hf. destruct mm as [a| |]; cbn [bind]; [apply Hf|discriminate|exfalso; apply Hm; reflexivity]. Qed.
+
+  Lemma sub_chk_not_oof a c : sub_chk a c <> OutOfFuel.
+  Proof. unfold sub_chk. destruct (c <=? a); discriminate. Qed.
+
+  Lemma suffix_from_not_oof : cmp_no_oof -> forall k e1 e2, suffix_from cmp e1 e2 k <> OutOfFuel.
+  Proof.
+    intros Hc. induction k as [|k IH]; intros e1 e2; cbn [suffix_from]; [discriminate|].
+    apply bind_not_oof; [apply Hc|]. intros [|]; [|discriminate].
+    apply bind_not_oof; [apply IH|]. intros; discriminate.
+  Qed.
+
+  Lemma prefix_from_not_oof : cmp_no_oof -> forall k i j, prefix_from cmp i j k <> OutOfFuel.
+  Proof.
+    intros Hc. induction k as [|k IH]; intros i j; cbn [prefix_from]; [discriminate|].
+    apply bind_not_oof; [apply Hc|]. intros [|]; [|discriminate].
+    apply bind_not_oof; [apply IH|]. intros; discriminate.
+  Qed.
+
+  Lemma common_suffix_len_not_oof a c d f : cmp_no_oof -> common_suffix_len cmp a c d f <> OutOfFuel.
+  Proof.
+    intros Hc. unfold common_suffix_len. destruct (empty_range a c || empty_range d f); [discriminate|].
+    apply suffix_from_not_oof. exact Hc.
+  Qed.
+
+  Lemma common_prefix_len_not_oof a c d f : cmp_no_oof -> common_prefix_len cmp a c d f <> OutOfFuel.
+  Proof.
+    intros Hc. unfold common_prefix_len. destruct (empty_range a c || empty_range d f); [discriminate|].
+    apply prefix_from_not_oof. exact Hc.
+  Qed.
+
+  Lemma up_aft1_not_oof X Y s aft : up_aft1 X Y s aft <> OutOfFuel.
+  Proof.
+    unfold up_aft1.
+    assert (Hnew : forall tl, (do eo <- sub_chk X s; do en <- sub_chk Y s; Ok (Equal eo en s :: tl)) <> OutOfFuel).
+    { intros tl. apply bind_not_oof; [apply sub_chk_not_oof|]. intros eo.
+      apply bind_not_oof; [apply sub_chk_not_oof|]. intros; discriminate. }
+    destruct aft as [|nx aft']; [apply Hnew|].
+    destruct nx as [xo xn xl| | |]; cbn [is_equal_op]; try apply Hnew.
+    cbn [grow_left]. apply bind_not_oof; [|intros; discriminate].
+    apply bind_not_oof; [apply sub_chk_not_oof|]. intros xo'.
+    apply bind_not_oof; [apply sub_chk_not_oof|]. intros; discriminate.
+  Qed.
+
+  Lemma up_step_not_oof z : cmp_no_oof -> up_step cmp repair z <> OutOfFuel.
+  Proof.
+    intros Hc. destruct z as [[bef this] aft].
+    destruct bef as [|prev bef']; [cbn [up_step]; discriminate|].
+    destruct this as [to tn tl|to tl tn|to tn tl|to tol tn tnl];
+      try (cbn [up_step op_tag]; discriminate);
+      (destruct prev as [po pn pl|po pl pn|po pn pl|po pol pn pnl];
+       try (cbn [up_step op_tag]; discriminate);
+       try (cbn [up_step op_tag]; destruct repair; cbn [repair_pair]; discriminate)).
+    - rewrite up_step_del_eq. destruct (op_is_empty (Equal po pn pl)); discriminate.
+    - rewrite up_step_ins_eq.
+      apply bind_not_oof; [apply common_suffix_len_not_oof; exact Hc|]. intros s.
+      destruct (0 <? s); [|destruct (op_is_empty (Equal po pn pl)); discriminate].
+      apply bind_not_oof; [apply up_aft1_not_oof|]. intros aft1.
+      apply bind_not_oof; [apply sub_chk_not_oof|]. intros io'.
+      apply bind_not_oof; [apply sub_chk_not_oof|]. intros inn'.
+      apply bind_not_oof; [apply sub_chk_not_oof|]. intros l'. discriminate.
+  Qed.
+
+  Lemma down_step_not_oof z : cmp_no_oof -> down_step cmp repair z <> OutOfFuel.
+  Proof.
+    intros Hc. destruct z as [[bef this] aft].
+    destruct aft as [|next aft']; [cbn [down_step]; discriminate|].
+    destruct this as [to tn tl|to tl tn|to tn tl|to tol tn tnl];
+      try (cbn [down_step op_tag]; discriminate);
+      (destruct next as [xo xn xl|xo xl xn|xo xn xl|xo xol xn xnl];
+       try (cbn [down_step op_tag]; discriminate);
+       try (cbn [down_step op_tag]; destruct repair; cbn [repair_pair]; discriminate)).
+    - rewrite down_step_del_eq. destruct (op_is_empty (Equal xo xn xl)); discriminate.
+    - rewrite down_step_ins_eq.
+      apply bind_not_oof; [apply common_prefix_len_not_oof; exact Hc|]. intros p.
+      destruct (0 <? p); [|destruct (op_is_empty (Equal xo xn xl)); discriminate].
+      apply bind_not_oof; [apply sub_chk_not_oof|]. intros l'. discriminate.
+  Qed.
+
+  Lemma run_steps_not_oof step (mu : zipper -> nat) :
+    (forall z, step z <> OutOfFuel) ->
+    (forall z z', step z = Ok (Continue z') -> mu z' < mu z) ->
+    forall fuel z, mu z < fuel -> run_steps step fuel z <> OutOfFuel.
+  Proof.
+    intros Hno Hdecr. induction fuel as [|fuel IH]; intros z Hmu; [lia|].
+    cbn [run_steps]. destruct (step z) as [r| |] eqn:Er; cbn [bind]; [|discriminate|exfalso; exact (Hno z Er)].
+    destruct r as [z1|z1]; [|discriminate].
+    apply IH. specialize (Hdecr _ _ Er). lia.
+  Qed.
+
+  Lemma shift_up_terminates z : cmp_no_oof -> shift_up cmp repair z <> OutOfFuel.
+  Proof.
+    intros Hc. unfold shift_up.
+    apply (run_steps_not_oof (up_step cmp repair) (fun z => ops_weight (zbef z))).
+    - intros z0. apply up_step_not_oof. exact Hc.
+    - apply up_step_decr.
+    - apply up_weight_lt_fuel.
+  Qed.
+
+  Lemma shift_down_terminates z : cmp_no_oof -> shift_down cmp repair z <> OutOfFuel.
+  Proof.
+    intros Hc. unfold shift_down.
+    apply (run_steps_not_oof (down_step cmp repair) (fun z => ops_weight (zaft z))).
+    - intros z0. apply down_step_not_oof. exact Hc.
+    - apply down_step_decr.
+    - apply down_weight_lt_fuel.
+  Qed.
 End Zipper.
 
 (* ------------------------------------------------------------------ *)
